@@ -112,5 +112,8 @@ def run(ctx):
             ctx.ob("R-THREAD", f, "unit (unnormalised) weights [1]*n", okp, "probs=[1]*len(states)" if okp else f"weights {show(pt) if pt else '?'}", c)
     f = m.func("is_antidistinguishable.is_antidistinguishable")
     rets, N = return_terms(m, f, inline=True)
-    ok = any(t[0] == "call" and t[1] == "numpy.isclose" and ("c", 0) in t[2] for _, _, t in rets)
-    ctx.ob("R-PRED", f, "antidistinguishable iff the exclusion value is 0", ok, "isclose(value, 0)" if ok else "verdict is not `value == 0`")
+    good = [t[0] == "call" and t[1] == "numpy.isclose" and ("c", 0) in t[2] and "state_exclusion" in repr(t) for _, _, t in rets]
+    ok = bool(good) and all(good)
+    badret = next((rn for (rn, _, t), g in zip(rets, good) if not g), None)
+    ctx.ob("R-PRED", f, "antidistinguishable iff the exclusion value is 0", ok, "every return is isclose(exclusion value, 0)" if ok else
+           f"`{unparse(badret)[:60] if badret is not None else '?'}` returns a verdict that is not `exclusion value == 0`: a shortcut decides antidistinguishability without the optimum", badret)
